@@ -171,7 +171,11 @@ static void read_impl(int who, uv_stream_t* s, ssize_t nread, const uv_buf_t* bu
   } else if (buf->len != 0) strcpy(idbuf, "-!len");
   if (!quiet) {
     printf("cb read %zd buf=%s ", nread, idbuf);
-    if (nread > 0) { for (ssize_t i = 0; i < nread; i++) printf("%02x", (unsigned char) buf->base[i]); }
+    if (nread > 256) {                       /* large read: length and Adler-32 instead of the bytes */
+      unsigned a = 1, b = 0;
+      for (ssize_t i = 0; i < nread; i++) { a = (a + (unsigned char) buf->base[i]) % 65521u; b = (b + a) % 65521u; }
+      printf("%zd:%08x", nread, (b << 16) | a);
+    } else if (nread > 0) { for (ssize_t i = 0; i < nread; i++) printf("%02x", (unsigned char) buf->base[i]); }
     else printf("-");
     printf(" g=%d\n", who);
   }
@@ -216,7 +220,7 @@ static void peer_write(size_t n, int with_fd) {
     c = CMSG_FIRSTHDR(&mh); c->cmsg_level = SOL_SOCKET; c->cmsg_type = SCM_RIGHTS; c->cmsg_len = CMSG_LEN(sizeof(int));
     memcpy(CMSG_DATA(c), &sp[0], sizeof(int));
   }
-  r = syscall(SYS_sendmsg, peerfd, &mh, MSG_NOSIGNAL);
+  r = syscall(SYS_sendmsg, peerfd, &mh, MSG_NOSIGNAL | MSG_DONTWAIT);
   if (r != (ssize_t) n) { printf("#harness-env-failure peer write returned %zd errno %d\n", r, errno); fflush(stdout); _exit(3); }
   if (with_fd) { close(sp[0]); close(sp[1]); }
   pos += n;
@@ -288,6 +292,11 @@ static void do_open(const char* kind) {
     if (uv_tcp_open(&h.t, fds[0])) exit(3);
   } else { printf("bad-op\n"); return; }
   if (uv_fileno((uv_handle_t*) &h.s, &sfd)) exit(3);
+  { /* room for several hundred KiB queued towards the stream without the peer blocking */
+    int sz = 8 << 20;
+    setsockopt(peerfd, SOL_SOCKET, SO_SNDBUFFORCE, &sz, sizeof(sz));
+    setsockopt(sfd, SOL_SOCKET, SO_RCVBUFFORCE, &sz, sizeof(sz));
+  }
   opened = 1;
   printf("opened\n");
 }
